@@ -1,3 +1,52 @@
-(* Properties_C15.v — property C15: show/look and print_to/scan_from round-trip values.
-   Only statements closed by `exact`, each followed by Print Assumptions. *)
-From CelloV Require Import Generated RoundTrip RoundTripProofs.
+(* Properties_C15.v — property C15: text written by show / print_to is read back by look / scan_from
+   into an equal value, consuming exactly the characters written, from a String and from a File.
+   Only statements closed by `exact`, each followed by Print Assumptions.
+   rt_cfg = the data re-extracted from the C text (escape tables, `continue`, "%lf", sign rule). *)
+From CelloV Require Import Generated RoundTrip RoundTripProofs RoundTripInst.
+
+(* the C text still has the shape the model encodes, and its escape tables are inverse to each other *)
+Theorem c15_source_shape : config_ok rt_cfg.
+Proof. exact RoundTripInst.rt_cfg_ok. Qed.
+Print Assumptions c15_source_shape.
+
+(* String: look (show s ++ anything) = s for every NUL-free byte string, consuming exactly show's text *)
+Theorem c15_string_roundtrip : forall s rest, nul_free s ->
+  look_string rt_look_continue rt_look_escapes (show_string rt_show_escapes s ++ rest)%list
+  = LDone s (length (show_string rt_show_escapes s)).
+Proof. exact RoundTripInst.rt_string_roundtrip. Qed.
+Print Assumptions c15_string_roundtrip.
+
+(* Int: "%li" text of every int64 is read back by "%li" into the same value, consuming exactly that
+   text, whatever follows that does not continue the number *)
+Theorem c15_int_roundtrip : forall z rest, int64 z -> stops_int rest ->
+  look_value rt_cfg TInt (show_value rt_cfg (VInt z) ++ rest)%list = Some (VInt z, length (show_value rt_cfg (VInt z))).
+Proof. exact RoundTripInst.rt_int_roundtrip. Qed.
+Print Assumptions c15_int_roundtrip.
+
+(* sequences of Strings and Ints with separators, at any start position, String sink and source *)
+Theorem c15_show_seq_string : forall its pre rest, show_seq_ok rt_cfg its rest ->
+  scan_str rt_cfg (fst (print_to_string rt_cfg pre (length pre) its) ++ rest)%list (length pre) (List.map sitem_of its) nil
+  = SOk (values_of its) (snd (print_to_string rt_cfg pre (length pre) its)).
+Proof. exact RoundTripInst.rt_show_seq_string. Qed.
+Print Assumptions c15_show_seq_string.
+
+(* the same through a File *)
+Theorem c15_show_seq_file : forall its old rest, show_seq_ok rt_cfg its rest -> lits_plain its ->
+  scan_file rt_cfg (List.skipn (length old) (fst (print_to_file rt_cfg old (length old) its) ++ rest)%list) (length old)
+    (List.map sitem_of its) nil
+  = SOk (values_of its) (snd (print_to_file rt_cfg old (length old) its)).
+Proof. exact RoundTripInst.rt_show_seq_file. Qed.
+Print Assumptions c15_show_seq_file.
+
+(* D7 (repaired in the repository): without the `continue` the escape letter is appended as well *)
+Theorem c15_look_without_continue_refuted :
+  exists s, nul_free s /\
+    look_string false rt_look_escapes (show_string rt_show_escapes s) <> LDone s (length (show_string rt_show_escapes s)).
+Proof. exact RoundTripInst.rt_look_without_continue_refuted. Qed.
+Print Assumptions c15_look_without_continue_refuted.
+
+(* non-vacuity *)
+Example c15_ex_nul_free : nul_free ex_string.
+Proof. exact RoundTripInst.ex_nul_free. Qed.
+Example c15_ex_show_seq_ok : show_seq_ok rt_cfg ex_items ex_rest.
+Proof. exact RoundTripInst.ex_show_seq_ok. Qed.
